@@ -3,6 +3,8 @@ import os
 import pathlib
 import uuid
 
+from crashbox import disk as diskmod
+
 from forml import project as prj
 from forml.io import asset
 from forml.provider.registry.filesystem import posix
@@ -27,13 +29,17 @@ def publish(ctx, package: str):
     return 'accepted'
 
 
-def train(ctx, project: str, release: str, states: list):
+def train(ctx, project: str, release: str, states: list, lose=None):
     """Exactly what runtime.Runner.train does with its asset accessor: tag = previous tag with the
     training triggered, one dump per stateful actor in actor order, one commit."""
     instance = asset.Instance(project, release, None, _directory(ctx))
     nodes = [uuid.uuid4() for _ in states]
     accessor = instance.state(nodes, instance.tag.training.trigger())
     sids = [accessor.dump(bytes.fromhex(s)) for s in states]
+    if lose is not None:  # injected fault: a staged state file vanishes before the commit
+        registry = _registry(ctx)
+        path = registry._path.state(sids[lose], asset.Project.Key(project), asset.Release.Key(release))  # pylint: disable=protected-access
+        diskmod.REAL['unlink'](path)
     accessor.commit(sids)
     return int(accessor._generation.key)  # pylint: disable=protected-access
 
